@@ -15,9 +15,14 @@
         file of L bytes (anything beyond the indexed data is an orphaned tail); it is opened (LoadBlockIndex + Seek), then
         w:<id>:<len> = writeOne, m:<id>:<len> = killed between the data write and the index write + restart, o = restart;
         a = 1: the data file handle is in O_APPEND mode (not what the code does)
+    roll <b 0|1> <maxSize> <tok> …           -> ok <maxdatfileidx> <maxdatfilepos> <every record reads back its block 0|1> <id>:<file>:<fpos>:<blen> …
+        positional block store with data-file roll-over (Model/PersistRoll.lean), from an empty directory:
+        w:<id>:<len> = writeOne, x:<id>:<len> = killed after the roll-over check/create + restart, m:<id>:<len> = killed between
+        the data write and the index write + restart, o = restart; b = 1: the else-if variant of LoadBlockIndex (not what the code does)
 -/
 import GocoinV.Model.Persist
 import GocoinV.Model.PersistPos
+import GocoinV.Model.PersistRoll
 import GocoinV.Base.Proto
 open GocoinV GocoinV.Persist
 
@@ -79,6 +84,30 @@ def parsePos (recs : List PRec) (ops : List POp) : List String → Option (List 
     | ["o"] => parsePos recs (POp.restart :: ops) rest
     | _ => none
 
+def parseRoll (ops : List ROp) : List String → Option (List ROp)
+  | [] => some ops.reverse
+  | t :: rest =>
+    match t.splitOn ":" with
+    | ["w", id, l] =>
+      match id.toNat?, l.toNat? with
+      | some id, some l => parseRoll (ROp.write id l :: ops) rest
+      | _, _ => none
+    | ["x", id, l] =>
+      match id.toNat?, l.toNat? with
+      | some id, some l => parseRoll (ROp.crashRoll id l :: ops) rest
+      | _, _ => none
+    | ["m", id, l] =>
+      match id.toNat?, l.toNat? with
+      | some id, some l => parseRoll (ROp.crashMid id l :: ops) rest
+      | _, _ => none
+    | ["o"] => parseRoll (ROp.restart :: ops) rest
+    | _ => none
+
+def rollQuery (b : Bool) (maxSize : Nat) (ops : List ROp) : String :=
+  let s := rrun b maxSize {} ops
+  let rs := s.d.idx.map (fun r => s!"{r.id}:{r.file}:{r.fpos}:{r.blen}")
+  s!"ok {s.n.maxidx} {s.n.maxpos} {if rreadsBack s.d then 1 else 0}" ++ (if rs.isEmpty then "" else " " ++ " ".intercalate rs)
+
 def posQuery (a : Bool) (len : Nat) (recs : List PRec) (ops : List POp) : String :=
   let me := maxEnd recs
   let ents := recs.map (fun r => (r.fpos, r.id, r.blen)) ++ (if len > me then [(me, 0, len - me)] else [])
@@ -92,6 +121,10 @@ def step (st : OState) (toks : List String) : OState × String :=
   | "pos" :: a :: len :: rest =>
     match a.toNat?, len.toNat?, parsePos [] [] rest with
     | some a, some len, some (recs, ops) => if a > 1 then (st, "bad-op") else (st, posQuery (a == 1) len recs ops)
+    | _, _, _ => (st, "bad-op")
+  | "roll" :: b :: ms :: rest =>
+    match b.toNat?, ms.toNat?, parseRoll [] rest with
+    | some b, some ms, some ops => if b > 1 then (st, "bad-op") else (st, rollQuery (b == 1) ms ops)
     | _, _, _ => (st, "bad-op")
   | "load" :: g :: rest =>
     match g.splitOn ":" with
